@@ -10,6 +10,7 @@ mod c09;
 mod c12;
 mod report;
 mod c13;
+mod c14;
 mod c15;
 mod c16;
 mod c17;
@@ -95,6 +96,7 @@ fn main() {
         "C09" => c09::run(&tier),
         "C12" => c12::run(&tier),
         "C13" => c13::run(&tier),
+        "C14" => c14::run(&tier),
         "C15" => c15::run(&tier),
         "C16" => c16::run(&tier),
         "C17" => c17::run(&tier),
